@@ -4,9 +4,9 @@ Rec == ndJsonDeserialize(IOEnv.TRACE)
 VARIABLE l
 tvars == <<vars, l>>
 R == Rec[l + 1]
-Matches(r) == act'.res = r.res /\ act'.val = r.val /\ (r.ev = "wake" => act'.wokenset = r.woken)
-Step(r) == \/ r.ev = "reset" /\ reg' = 0 /\ depth' = 0 /\ act' = NoAct
-           \/ r.ev = "register" /\ Register(r.w) /\ Matches(r)
+Matches(r) == act'.res = r.res /\ act'.val = r.val /\ (r.ev \in {"wake", "register"} => act'.wokenset = r.woken)
+Step(r) == \/ r.ev = "reset" /\ reg' = 0 /\ re' = FALSE /\ depth' = 0 /\ act' = NoAct
+           \/ r.ev = "register" /\ Register(r.w, r.re) /\ Matches(r)
            \/ r.ev = "wake" /\ Wake /\ Matches(r)
            \/ r.ev = "take" /\ Take /\ Matches(r)
 TInit == Init /\ l = 0
